@@ -181,10 +181,35 @@ def gen_sweep_scenario(rng, index):
     return {"index": index, "faults_enabled": True, "n_slots": 1, "texts": texts, "ops": ops, "family": "crash-sweep"}
 
 
+def gen_churn_scenario(rng, index):
+    """Long-lived evaluators: one or two evaluators are taken through 20-48 distinct small texts (revisions of one experiment)
+    and back to early ones - bounded per-evaluator or per-process histories / caches wrap around only here."""
+    base = gen.gen_program(rng, f"r{index}t0", depths=[0, 0, 1], compact=True, splitters=(1, 2), p_giant=0.0)
+    progs = [base]
+    n = rng.choice([20, 34, 48])
+    for j in range(1, n):
+        progs.append(gen.variant_of(rng, base, f"r{index}t{j}"))
+    if rng.random() < 0.5:
+        progs.append(gen.gen_program(rng, f"r{index}t{len(progs)}", depths=[0, 1], compact=True, p_giant=1.0))   # one very large source
+    texts = [{"tid": p.tid, "text": p.text, "kind": p.kind, "note": p.note, "panel": gen.gen_panel(rng, p, n=4, ascii_only=True)} for p in progs]
+    n_slots = rng.choice([1, 2])
+    ops = [{"op": "new", "slot": s, "t": 0} for s in range(n_slots)]
+    order = list(range(1, len(progs)))
+    for t in order:
+        ops.append({"op": "recompile", "slot": rng.randrange(n_slots), "t": t})
+    for _ in range(rng.choice([4, 8, 12])):
+        ops.append({"op": "recompile", "slot": rng.randrange(n_slots), "t": rng.randrange(0, min(6, len(progs)))})   # back to evicted early ones
+        if rng.random() < 0.5:
+            ops.append({"op": "recompile", "slot": rng.randrange(n_slots), "t": rng.randrange(len(progs))})
+    return {"index": index, "faults_enabled": False, "n_slots": n_slots, "texts": texts, "ops": ops, "family": "churn"}
+
+
 def gen_scenario(rng, index, faults_enabled):
     """Returns a JSON-serialisable scenario: alphabet + panels + op list."""
     if index % 20 == 19:
         return gen_sweep_scenario(rng, index)
+    if index % 20 == 9:
+        return gen_churn_scenario(rng, index)
     n_base = rng.choice([1, 2, 2, 3])
     progs = []
     shared_name = rng.choice(["exp_a", "exp_b", "cfg"])
